@@ -104,8 +104,8 @@ Sigs(p) ==
         opt(w) == IF w \in ws THEN {<< Bind(w, it) >> : it \in ValPool(w)} ELSE {<< >>}
     IN {a1 \o a2 \o a3 : a1 \in opt(W), a2 \in opt(Vv), a3 \in opt(St)}
 
-Contexts == IF Quick THEN {"id", "call", "twice"}
-            ELSE {"id", "call", "twice", "pow", "deep", "sum", "mix"}
+Contexts == IF Quick THEN {"id", "call", "twice", "argsum"}
+            ELSE {"id", "call", "twice", "pow", "deep", "sum", "mix", "argsum"}
 \* thorough: every substitution in the two basic contexts, one substitution in the others
 BasicContexts == {"id", "call"}
 RECURSIVE MixM(_)
@@ -119,6 +119,7 @@ InCtx(c, e) ==
       [] c = "pow" -> B("Power", e, K2)
       [] c = "deep" -> Call(g, << x, Cmp(e, "<", y) >>)
       [] c = "sum" -> S(<< e, z >>)
+      [] c = "argsum" -> Call(g, << S(<< e, z >>) >>)
       [] c = "mix" -> Call(g, << MixM(e) >>)
 IndepSubjects == { S(<< x, y, z >>), P(<< x, S(<< y, z >>) >>), Call(f, << x, y, z >>),
                    Call(g, << Call(f, << x >>), Call(f, << y >>) >>), B("Sub", x, T(<< y, z >>)),
@@ -214,7 +215,7 @@ RewriteMachineOK ==
               s2 # {} /\ \A t2 \in s2 : Marker(1) \in SubNFs(t2) /\ Marker(2) \in SubNFs(t2))
         /\ ReplaceVerdict(subj, pat, << sg >>, InCtx(IF ctx = "twice" THEN "call" ELSE ctx, r1),
                           mode) \in (IF ctx = "twice" THEN {"rep_result"} ELSE {"OK"})
-        /\ (ctx \in {"call", "mix"} => ReplacedInArgList(subj, pat, << sg >>, mode))
+        /\ (ctx \in {"call", "mix", "deep"} => ReplacedInArgList(subj, pat, << sg >>, mode))
 RoundTripMeaning ==
     (Complete /\ kind = "rt") => NFM(MixM(subj)) = NFM(subj)
 
